@@ -6,6 +6,9 @@
 //   job <code> <act>...      body of job code <code>: e<code> = enqueue a job, t = terminate(), d = done(),
 //                            i = idle(), x = throw std::runtime_error (the rest of the body is not executed;
 //                            the pool catches and logs it)
+//                            after a `~`: what the DESTRUCTOR of the job's closure does (e<code> | d | i) — the
+//                            closure captures an object whose destructor logs `job~<id>` and may enqueue a
+//                            continuation (fork-join idiom) or read the observers
 //   client <call>...         a client thread: e<code> | t | d | i | w (loop_until_empty) | u (loop_until_terminate)
 //   main <call>...           calls made by the main thread itself after starting the clients
 //   run seed=<n> [stick=<0..255>] [spur=<k>] [max=<steps>] [sched=<csv>]
@@ -22,6 +25,10 @@
 //   * loop_until_empty returned while a job was queued or running (private jobs_/busy_),
 //     or while a job pushed before had not run exactly once, or done() != number of finished jobs
 //     (a job that threw counts as run and as finished: the pool catches the exception and carries on);
+//   * the closure of a job destroyed more than once / not at all, before its body ended, after the worker's
+//     bookkeeping for it (++done_), by another thread than the worker that ran it, or while the destroying
+//     thread holds the pool mutex; loop_until_empty returned while the closure of a job that ran is still alive;
+//     a thread re-locking the pool mutex it owns (self-deadlock);
 //   * done() larger than the number of finished job bodies or more than <workers> behind it, done() decreasing,
 //     idle() > size(), size() != <workers>; init_thread not called exactly once per worker with its index
 //     before the worker's first job; number of logged exceptions != number of jobs that threw;
@@ -29,6 +36,7 @@
 //   * the run came to rest with a thread blocked in a condition wait whose predicate holds
 //     (lost wake-up / stranded waiter) or blocked on the mutex (deadlock);
 //   * at the normal end: a job ran more than once, done() != finished jobs.
+#include <algorithm>
 #include <cstring>
 #include <memory>
 #include <stdexcept>
@@ -48,11 +56,15 @@ struct Scenario {
     int nworkers = -1;
     int init_yields = -1;                    // -1: no init_thread callback
     std::map<int, std::vector<Act>> jobs;
+    std::map<int, std::vector<Act>> dtors;    // what the closure's destructor does
     std::vector<std::vector<Act>> clients;
     std::vector<Act> main_calls;
 };
 
-struct JobInst { int code; int id = -1; int runs = 0; bool finished = false; bool threw = false; long effect = 0; };
+struct JobInst {
+    int code; int id = -1; int runs = 0; bool finished = false; bool threw = false; long effect = 0;
+    int destroyed = 0; bool counted = false; int runner = -1;
+};
 
 struct RunState {
     alignas(tlx::ThreadPool) unsigned char store[sizeof(tlx::ThreadPool)];
@@ -64,6 +76,8 @@ struct RunState {
     std::map<int, char> in_call;             // logical thread -> blocking call it is in
     int finished_jobs = 0;
     int thrown_jobs = 0;
+    std::vector<int> dropped;                // closures destroyed with the queue by ~ThreadPool
+    std::map<int, JobInst*> cur_run;         // worker thread -> the job it ran last
     std::map<int, int> init_calls;           // worker index -> number of init_thread calls
     std::map<int, long long> last_done;      // logical thread -> last value of done() it saw
     long long final_done = -1;
@@ -95,10 +109,50 @@ static bool parse_act(const std::string& t, bool in_job, Act& a) {
 
 static void do_call(const Act& a);
 
+// The object captured by a job's closure: its destructor is the "job destroyed" event.
+struct Closure {
+    JobInst* inst;
+    explicit Closure(JobInst* i) : inst(i) {}
+    Closure(const Closure&) = delete;
+    Closure& operator=(const Closure&) = delete;
+    ~Closure();
+};
+
+Closure::~Closure() {
+    Sched& S = Sched::get();
+    ++inst->destroyed;
+    if (rs == nullptr || !Sched::in_logical_thread() || S.aborting()) return;   // clean-up of an abandoned run
+    int me = Sched::self_id();
+    if (inst->destroyed > 1) rs->viol("closure of job " + std::to_string(inst->id) + " destroyed " + std::to_string(inst->destroyed) + " times");
+    if (rs->in_dtor && me == 0) {
+        // ~ThreadPool (main thread) destroys the jobs that are still queued; nothing may touch the pool any more
+        if (inst->runs != 0) rs->viol("job " + std::to_string(inst->id) + " was run but its closure lived until ~ThreadPool");
+        rs->dropped.push_back(inst->id);     // logged in id order: std::deque destroys its nodes in an unspecified order
+        return;
+    }
+    if (inst->runs == 0) rs->viol("closure of job " + std::to_string(inst->id) + " destroyed although the job never ran and the pool is alive");
+    else {
+        if (!inst->finished) rs->viol("closure of job " + std::to_string(inst->id) + " destroyed before its body ended");
+        if (inst->counted) rs->viol("closure of job " + std::to_string(inst->id) + " destroyed after the worker's bookkeeping (++done_) for it");
+        if (inst->runner != me) rs->viol("closure of job " + std::to_string(inst->id) + " destroyed by thread " + std::to_string(me) + ", run by thread " + std::to_string(inst->runner));
+    }
+    if (rs->pool->mutex_.st_.owner == me)
+        rs->viol("closure of job " + std::to_string(inst->id) + " destroyed while thread " + std::to_string(me) + " holds the pool mutex");
+    // what the destructor does: enqueue a continuation, read the observers
+    auto it = sc.dtors.find(inst->code);
+    if (it != sc.dtors.end()) {
+        // a destructor must not let the exception that unwinds an abandoned run escape
+        try { for (const Act& a : it->second) do_call(a); } catch (detsched::Abort&) { return; }
+    }
+    S.note("job~" + std::to_string(inst->id));
+}
+
 static void run_job(JobInst* inst) {
     Sched& S = Sched::get();
     if (++inst->runs > 1) rs->viol("job " + std::to_string(inst->id) + " executed " + std::to_string(inst->runs) + " times");
     S.note("job+" + std::to_string(inst->id));
+    inst->runner = Sched::self_id();
+    rs->cur_run[inst->runner] = inst;
     {
         // the worker executing a job has been through init_thread exactly once
         int p = Sched::self_id() - 1;
@@ -137,6 +191,11 @@ static void check_lue_return() {
             break;
         }
     }
+    for (JobInst* j : rs->pushed)
+        if (j->runs == 1 && j->destroyed != 1) {
+            rs->viol("loop_until_empty returned but the closure of job " + std::to_string(j->id) + " is still alive (its destructor has not run)");
+            break;
+        }
     if (static_cast<long long>(p.done_.peek()) != rs->finished_jobs)
         rs->viol("loop_until_empty returned with done()=" + std::to_string(p.done_.peek()) + " but " +
                  std::to_string(rs->finished_jobs) + " job(s) finished");
@@ -151,7 +210,11 @@ static void do_call(const Act& a) {
         JobInst* inst = rs->insts.back().get();
         inst->code = a.code;
         rs->cur_enq[me] = inst;
-        rs->pool->enqueue([inst]() { run_job(inst); });
+        {
+            // the closure owns the Closure object; the temporaries it is moved from hold nothing
+            std::shared_ptr<Closure> cl = std::make_shared<Closure>(inst);
+            rs->pool->enqueue([cl = std::move(cl)]() { run_job(cl->inst); });
+        }
         rs->cur_enq.erase(me);
         break;
     }
@@ -230,6 +293,8 @@ static void scenario_main() {
     rs->in_dtor = true;
     p->~ThreadPool();   // the final done() check runs when the last worker was joined (event hook)
     rs->destroyed = true;
+    std::sort(rs->dropped.begin(), rs->dropped.end());
+    for (int id : rs->dropped) S.note("job~" + std::to_string(id));
     S.note("end");
 }
 
@@ -239,7 +304,9 @@ static void on_stuck(const std::vector<detsched::Blocked>& blocked) {
     size_t busy = p.busy_.peek();
     bool qempty = p.jobs_.empty();
     for (const auto& b : blocked) {
-        if (b.op == Op::Lock) {
+        if (b.op == Op::Lock && b.self_owner) {
+            rs->viol("self-deadlock: thread " + std::to_string(b.tid) + " locks the pool mutex it already owns");
+        } else if (b.op == Op::Lock) {
             rs->viol("deadlock: thread " + std::to_string(b.tid) + " blocked on the mutex at rest");
         } else if (b.op == Op::Wake && b.obj == &p.cv_jobs_) {
             if (term || !qempty)
@@ -311,6 +378,11 @@ static std::string execute(const RunParams& p, bool tail_zero, std::vector<std::
             if (rs->final_done != rs->finished_jobs)
                 rs->viol("at the end done()=" + std::to_string(rs->final_done) + " but " + std::to_string(rs->finished_jobs) + " job(s) finished");
         }
+        if (op == Op::Rmw && obj == &rs->pool->done_) {
+            // the worker's bookkeeping for the job it ran last
+            auto it = rs->cur_run.find(tid);
+            if (it != rs->cur_run.end()) it->second->counted = true;
+        }
         if (op == Op::NotifyOne && obj == &rs->pool->cv_jobs_) {
             auto it = rs->cur_enq.find(tid);
             if (it != rs->cur_enq.end() && it->second->id < 0) {
@@ -335,6 +407,9 @@ static std::string execute(const RunParams& p, bool tail_zero, std::vector<std::
     // summary (all logical threads are gone now)
     long long done = state.final_done;
     if (state.constructed && !state.destroyed) done = static_cast<long long>(state.pool->done_.peek());
+    if (e == detsched::End::Done)
+        for (JobInst* j : state.pushed)
+            if (j->destroyed != 1) { state.viol("closure of job " + std::to_string(j->id) + " destroyed " + std::to_string(j->destroyed) + " times by the end"); break; }
     for (JobInst* j : state.pushed)
         if (j->runs > 1) { state.viol("job " + std::to_string(j->id) + " ran " + std::to_string(j->runs) + " times"); break; }
     std::ostringstream os;
@@ -407,10 +482,16 @@ int main(int argc, char** argv) {
         } else if (t[0] == "job" && t.size() >= 2) {
             Act c;
             if (parse_act("e" + t[1], true, c)) {
-                std::vector<Act> body;
-                bool ok = true;
-                for (size_t i = 2; i < t.size(); ++i) { Act a; if (!parse_act(t[i], true, a)) ok = false; else body.push_back(a); }
-                if (ok) { sc.jobs[c.code] = body; out = "ok"; }
+                std::vector<Act> body, dtor;
+                bool ok = true, in_dtor = false;
+                for (size_t i = 2; i < t.size(); ++i) {
+                    if (t[i] == "~" && !in_dtor) { in_dtor = true; continue; }
+                    Act a;
+                    if (!parse_act(t[i], true, a)) ok = false;
+                    else if (in_dtor) { if (a.kind == 'e' || a.kind == 'd' || a.kind == 'i') dtor.push_back(a); else ok = false; }
+                    else body.push_back(a);
+                }
+                if (ok) { sc.jobs[c.code] = body; sc.dtors[c.code] = dtor; out = "ok"; }
             }
         } else if ((t[0] == "client" || t[0] == "main")) {
             std::vector<Act> calls;
